@@ -329,10 +329,10 @@ def _result_objects(seed):
         ms = [M.ModelFixed('a', RDMs(np.round(g.uniform(0.5, 3, size=(1, 6)), 3), pattern_descriptors={'name': list(nm)})),
               M.ModelFixed('b', RDMs(np.round(g.uniform(0.5, 3, size=(1, 6)), 3), pattern_descriptors={'name': list(nm)}))]
         return I.eval_fixed(ms, d)
-    def shaped(routine, shape):
+    def shaped(routine, shape, n_models=2):
         # every evaluation routine on data with more RDMs than conditions and vice versa: which of
         # n_rdm / n_pattern enters the stored corrections depends on the routine (cv_method)
-        n_r, n_c = (8, 4) if shape == 'wide' else (3, 6)
+        n_r, n_c = {'wide': (8, 4), 'tall': (3, 6), 'one-rdm': (1, 6)}[shape]
         L = n_c * (n_c - 1) // 2
 
         def make():
@@ -341,7 +341,7 @@ def _result_objects(seed):
             d = RDMs(np.round(g.uniform(0.5, 3, size=(n_r, L)), 3), pattern_descriptors={'name': list(nm)},
                      rdm_descriptors={'subj': list(range(n_r))})
             ms = [M.ModelFixed(k, RDMs(np.round(g.uniform(0.5, 3, size=(1, L)), 3), pattern_descriptors={'name': list(nm)}))
-                  for k in ('a', 'b')]
+                  for k in ('a', 'b')][:n_models]
             st = np.random.get_state()
             np.random.seed(11)
             try:
@@ -361,6 +361,11 @@ def _result_objects(seed):
     shaped_items = [('result:%s,%s' % (r, sh), 'result', shaped(r, sh))
                     for r in ('eval_fixed', 'eval_bootstrap', 'eval_bootstrap_rdm', 'eval_bootstrap_pattern',
                               'eval_dual_bootstrap', 'bootstrap_crossval') for sh in ('wide', 'tall')]
+    # one model only (scalar variance estimates: 0-d arrays), and a single data RDM (dof 0)
+    shaped_items += [('result:%s,%s,one-model' % (r, sh), 'result', shaped(r, sh, 1))
+                     for r in ('eval_fixed', 'eval_bootstrap_rdm', 'eval_bootstrap_pattern') for sh in ('wide', 'tall')]
+    shaped_items += [('result:eval_fixed,one-rdm', 'result', shaped('eval_fixed', 'one-rdm')),
+                     ('result:eval_fixed,one-rdm,one-model', 'result', shaped('eval_fixed', 'one-rdm', 1))]
     return shaped_items + [('result:fixed', 'result', lambda: I.eval_fixed(models(), data(), theta=[None, np.array([1.0, 0.5])])),
             ('result:fixed-12-models', 'result', many),
             ('result:fixed-more-rdms-than-conditions', 'result', wide),
